@@ -579,6 +579,15 @@ func compareOutcome(drv *Driver, o *cascadeOutcome, post NodeSt, eff string, new
 	if newFut != nil && !strings.Contains(submitOut, "accepted") && !strings.Contains(submitOut, "registered") {
 		want[newFut] = res{true, !strings.Contains(submitOut, "already")}
 	}
+	// the node has ONE slot for a membership future: a request accepted while another is still
+	// unanswered takes the slot over and the older future is orphaned (it times out): only the
+	// owner of the slot is answered by `fcf` (known finding S3 is how two get accepted)
+	var owner *lfut
+	for _, f := range futs {
+		if f.kind == "cfg" && f.key != 0 {
+			owner = f
+		}
+	}
 	for _, ev := range o.events {
 		for _, f := range futs {
 			if f.resolvedSeen() {
@@ -588,7 +597,7 @@ func compareOutcome(drv *Driver, o *cascadeOutcome, post NodeSt, eff string, new
 				continue
 			}
 			switch {
-			case ev == "ff" && f.kind != "cfg", ev == "fcf" && f.kind == "cfg":
+			case ev == "ff" && f.kind != "cfg", ev == "fcf" && f == owner:
 				// only futures the model still tracks are answered; a submission refused at once is in `want` already
 				want[f] = res{true, true}
 			case ev == "ok:"+keyOf(f):
